@@ -48,8 +48,12 @@ fn expected(v: &Value) -> String {
     vx::show(&norm(v))
 }
 
-pub fn exec(_label: &str, input: &str, out: &mut CaseOut) {
+pub fn exec(label: &str, input: &str, out: &mut CaseOut) {
     let (mode, rest) = input.split_once(' ').unwrap_or((input, ""));
+    // `hist:` cases: the same exchange AFTER a history of rejected documents on this thread
+    if label.starts_with("hist") {
+        crate::c02::rejected_documents(40, out);
+    }
     match mode {
         "w" => {
             let v = match vx::parse(rest) {
@@ -240,6 +244,17 @@ fn early_cases(ctx: &mut Ctx) {
 }
 
 pub fn generate(ctx: &mut Ctx) {
+    // documents read after a history of rejected documents on the same thread
+    for depth in [1usize, 3, 20, 40, 60] {
+        for kind in ["list", "dict", "grid", "mix"] {
+            // serde_json refuses text nested deeper than 128: a grid level costs three JSON levels
+            if (kind == "grid" && depth > 20) || (kind == "mix" && depth > 40) {
+                continue;
+            }
+            let v = crate::c02::wf_chain(kind, depth);
+            ctx.case("hist:chain", &format!("r {} {}", 7000 + depth, vx::show(&v)));
+        }
+    }
     for v in crate::c01::named_cases() {
         ctx.case("w:named", &format!("w {}", vx::show(&v)));
         for k in 0..8 {
